@@ -43,12 +43,13 @@ constexpr int kTagCtor = 2, kTagForward = 3, kTagGuard = 4;
 
 enum Probe : int {
   pNodeCreated = 0, pNodeRetired, pWorkerAcrossForwards, pIdReuse, pGuardSeenByForward, pQuiescentForward, pListChecked, pGuardStraddledForward,
-  pRestart, pPinnedAcrossBoundary, pBurst, pProbes
+  pRestart, pPinnedAcrossBoundary, pBurst, pUnobservedForward, pProbes
 };
 const char *const kProbeNames[] = {"forward_created_list_node", "forward_retired_list_node", "guard_alive_across_two_or_more_forwards",
                                    "slot_reused_by_new_thread", "live_guard_checked_after_forward", "quiescent_forward_checked",
                                    "protected_list_checked", "guard_creation_overlapped_forward", "worker_exit_and_restart",
-                                   "guard_pinned_across_node_boundary", "coordinator_forward_burst", nullptr};
+                                   "guard_pinned_across_node_boundary", "coordinator_forward_burst", "forward_followed_by_forward_without_observation",
+                                   nullptr};
 
 std::string g_prop;
 bool tagged(const char *tags) { return g_prop.empty() || strstr(tags, g_prop.c_str()) != nullptr; }
@@ -352,7 +353,10 @@ Published read_published()
   return p;
 }
 
-void forward_once(bool concurrent)
+// observe = false: the next call follows at once.  Everything the oracle does between two forwards (GetProtectedEpochs creates a guard
+// on the coordinator's slot) writes, hence drains the coordinator's store buffer in TSO runs; without it the stores of one forward can
+// still be buffered while the next forward scans the slots.
+void forward_once(bool concurrent, bool observe = true)
 {
   // snapshot of the complete, live guards at the start of the call
   std::vector<size_t> snap;
@@ -385,6 +389,10 @@ void forward_once(bool concurrent)
     ORACLE("[C16]", "epoch-not-advanced-by-one", " :: GetCurrentEpoch was %zu before ForwardGlobalEpoch and %zu after it", before, after);
   }
   S->last_cur[0] = after;
+  if (!observe) {
+    dsim::probe(pUnobservedForward);
+    return;
+  }
   const Published pub = read_published();
   if (pub.min > S->max_min_seen) S->max_min_seen = pub.min;
   if (pub.min > after) {
@@ -686,7 +694,9 @@ void entry(void *)
         dsim::yield();
       }
       for (int64_t i = 0; i < op.a; ++i) {
-        forward_once(true);
+        const bool observe = !(op.obj == 1 && i + 1 < op.a);  // obj = 1: the forwards of this operation follow each other directly
+        forward_once(true, observe);
+        if (!observe) continue;
         reading_current("coordinator");
         for (int64_t y = 0; y < op.b; ++y) dsim::yield();
       }
@@ -834,6 +844,10 @@ void generate(Program &prog, dsim::Config &cfg, dsim::Rng &pr, dsim::Rng &cr, in
     o.a = 1 + static_cast<int64_t>(pr.below(profile == kLists ? 5 : 4));
     o.b = static_cast<int64_t>(pr.below(4));
     if (pr.chance(profile == kLists ? 2 : 1, 5)) o.c = 100 + static_cast<int64_t>(pr.below(500));
+    if (pr.chance(1, 4)) {
+      o.obj = 1;
+      if (o.a < 2) o.a = 2;
+    }
     coord.push_back(o);
   }
   prog.threads.push_back(coord);
@@ -907,7 +921,8 @@ std::string render(const Program &p)
   s += ", prologue " + std::to_string(p.params.empty() ? 0 : p.params[0]) + " forwards (epoch " +
        std::to_string(kInitial + static_cast<size_t>(p.params.empty() ? 0 : p.params[0])) + ")\n  coordinator:";
   for (auto &o : p.threads[0])
-    s += (o.c ? " burst x" + std::to_string(o.c) + ";" : std::string()) + " forward x" + std::to_string(o.a) + " (yields " + std::to_string(o.b) + ");";
+    s += (o.c ? " burst x" + std::to_string(o.c) + ";" : std::string()) + " forward x" + std::to_string(o.a) +
+         (o.obj == 1 ? " back-to-back" : "") + " (yields " + std::to_string(o.b) + ");";
   s += "\n";
   for (size_t t = 1; t < p.threads.size(); ++t) {
     s += "  W" + std::to_string(t) + ":";
